@@ -135,7 +135,7 @@ structure ScopeDisk (K P : Type) where
   accts : List (Nat × AcctRow K P)
   addrs : List (AddrId P × AddrRow)
   used : List (AddrId P)
-  lastAcct : Nat
+  lastAcct : Option Nat     -- `lastaccount` meta row; absent in scopes made by `NewScopedKeyManager`
 
 structure Disk (K P : Type) where
   watchOnly : Bool
@@ -177,7 +177,7 @@ inductive Op (K P : Type)
   | next (sc : Scope) (acct n : Nat) (internal : Bool) (hbase : Nat)
   | extend (sc : Scope) (acct last : Nat) (internal : Bool)
   | lookup (sc : Scope) (id : AddrId P) (h : Nat)
-  | markUsed (sc : Scope) (id : AddrId P)
+  | markUsed (sc : Scope) (id : AddrId P) (desc : String)   -- desc: descriptor used when the address has no row
   | derive (sc : Scope) (acct acctChild branch index : Nat) (h : Nat)
   | importPriv (sc : Scope) (id : Nat) (compressed : Bool) (h : Nat)
   | importPub (sc : Scope) (id : Nat) (h : Nat)
